@@ -397,3 +397,164 @@ impl System for BigPayload {
     }
     fn finish(self, _out: &mut StepOut) {}
 }
+
+
+// ---------------------------------------------------------------------------------------------
+// `Clone::clone_from` on shared handles (used implicitly by `Vec::clone_from` and friends): a
+// handle that is re-pointed from channel A to channel B stops counting for A and counts for B.
+// One script per handle type; the expected outcome is fixed by C11 ("closes implicitly exactly
+// when its last sender handle or its last receiver handle is dropped - never while a handle of
+// each side is still alive").
+
+#[derive(Clone, Copy, Debug, PartialEq)]
+pub enum HandleOp {
+    Run(u8),
+}
+pub struct HandleScript {
+    ran: Option<u8>,
+}
+
+fn mpmc_sender_clone_from(out: &mut StepOut) {
+    use futures_intrusive::channel::shared::generic_channel;
+    let (tx_a, rx_a) = generic_channel::<PL, u32, FixedHeapBuf<u32>>(2);
+    let (tx_b, rx_b) = generic_channel::<PL, u32, FixedHeapBuf<u32>>(2);
+    let wr = harness::waker(W_R);
+    let mut parked = Box::pin(rx_a.receive());
+    if !matches!(lib(|| parked.as_mut().poll(&mut Context::from_waker(&wr))), Ok(Poll::Pending)) {
+        out.v("C09", "script", "receive on an empty open channel is not pending".to_string());
+        return;
+    }
+    let mut h = tx_a.clone();
+    if let Err(p) = lib(|| h.clone_from(&tx_b)) {
+        out.v("C01", "panic", format!("clone_from panicked: {}", p));
+        return;
+    }
+    let w0 = harness::wakes(W_R);
+    drop(tx_a);
+    // channel A has no sender left
+    if harness::wakes(W_R) == w0 {
+        out.v("C11", "last-sender-did-not-close", "the last sender handle of channel A was dropped (another one had been re-pointed to channel B with clone_from), the parked receiver was not woken".to_string());
+        return;
+    }
+    if !matches!(lib(|| parked.as_mut().poll(&mut Context::from_waker(&wr))), Ok(Poll::Ready(None))) {
+        out.v("C11", "last-sender-did-not-close", "channel A has no sender handle left but a receive does not yield None".to_string());
+        return;
+    }
+    // channel B: the re-pointed handle counts
+    drop(tx_b);
+    if !matches!(lib(|| h.try_send(7)), Ok(Ok(()))) {
+        out.v("C11", "closed-too-early", "channel B was closed although the re-pointed sender handle is alive".to_string());
+        return;
+    }
+    drop(h);
+    match lib(|| (rx_b.try_receive(), rx_b.try_receive())) {
+        Ok((Ok(7), Err(TryReceiveError::Closed))) => {}
+        other => out.v("C11", "last-sender-did-not-close", format!("after the last sender of channel B was dropped: {:?}", other.map(|(a, b)| (a.ok(), b.err().map(|e| e.is_closed()))))),
+    }
+    drop(parked);
+}
+
+fn mpmc_receiver_clone_from(out: &mut StepOut) {
+    use futures_intrusive::channel::shared::generic_channel;
+    let (tx_a, rx_a) = generic_channel::<PL, u32, FixedHeapBuf<u32>>(2);
+    let (tx_b, rx_b) = generic_channel::<PL, u32, FixedHeapBuf<u32>>(2);
+    let mut h = rx_a.clone();
+    if let Err(p) = lib(|| h.clone_from(&rx_b)) {
+        out.v("C01", "panic", format!("clone_from panicked: {}", p));
+        return;
+    }
+    drop(rx_a);
+    // channel A has no receiver left: sends fail and hand the value back
+    match lib(|| tx_a.try_send(1)) {
+        Ok(Err(TrySendError::Closed(1))) => {}
+        other => {
+            out.v("C11", "last-receiver-did-not-close", format!("channel A has no receiver handle left (one had been re-pointed to channel B with clone_from) but try_send yields {:?}", other.map(|r| r.is_ok())));
+            return;
+        }
+    }
+    drop(rx_b);
+    if !matches!(lib(|| tx_b.try_send(2)), Ok(Ok(()))) {
+        out.v("C11", "closed-too-early", "channel B was closed although the re-pointed receiver handle is alive".to_string());
+        return;
+    }
+    if !matches!(lib(|| h.try_receive()), Ok(Ok(2))) {
+        out.v("C09", "script", "the re-pointed receiver handle does not receive from channel B".to_string());
+        return;
+    }
+    drop(h);
+    if !matches!(lib(|| tx_b.try_send(3)), Ok(Err(TrySendError::Closed(3)))) {
+        out.v("C11", "last-receiver-did-not-close", "channel B accepts a value although its last receiver handle was dropped".to_string());
+    }
+}
+
+fn state_handles_clone_from(out: &mut StepOut) {
+    use futures_intrusive::channel::shared::generic_state_broadcast_channel;
+    use futures_intrusive::channel::StateId;
+    let (tx_a, rx_a) = generic_state_broadcast_channel::<PL, u32>();
+    let (tx_b, rx_b) = generic_state_broadcast_channel::<PL, u32>();
+    let mut h = tx_a.clone();
+    if let Err(p) = lib(|| h.clone_from(&tx_b)) {
+        out.v("C01", "panic", format!("clone_from panicked: {}", p));
+        return;
+    }
+    drop(tx_a);
+    let wr = harness::waker(W_R);
+    let mut f = Box::pin(rx_a.receive(StateId::new()));
+    if !matches!(lib(|| f.as_mut().poll(&mut Context::from_waker(&wr))), Ok(Poll::Ready(None))) {
+        out.v("C11", "last-sender-did-not-close", "state channel A has no sender handle left (one had been re-pointed with clone_from) but receive does not yield None".to_string());
+        return;
+    }
+    drop(tx_b);
+    if !matches!(lib(|| h.send(5)), Ok(Ok(()))) {
+        out.v("C11", "closed-too-early", "state channel B was closed although the re-pointed sender handle is alive".to_string());
+        return;
+    }
+    let mut r = rx_a.clone();
+    if let Err(p) = lib(|| r.clone_from(&rx_b)) {
+        out.v("C01", "panic", format!("clone_from panicked: {}", p));
+        return;
+    }
+    drop(rx_b);
+    if !matches!(lib(|| r.try_receive(StateId::new()).map(|x| x.1)), Ok(Some(5))) {
+        out.v("C13", "script", "the re-pointed receiver handle does not see the state of channel B".to_string());
+        return;
+    }
+    drop(r);
+    if !matches!(lib(|| h.send(6)), Ok(Err(_))) {
+        out.v("C11", "last-receiver-did-not-close", "state channel B accepts a value although its last receiver handle was dropped".to_string());
+    }
+    drop(f);
+    drop(rx_a);
+}
+
+impl System for HandleScript {
+    type Op = HandleOp;
+    fn new(_cfg: &Cfg) -> Self {
+        HandleScript { ran: None }
+    }
+    fn enabled(&self) -> Vec<HandleOp> {
+        if self.ran.is_some() {
+            vec![]
+        } else {
+            (0..3).map(HandleOp::Run).collect()
+        }
+    }
+    fn apply(&mut self, op: HandleOp, out: &mut StepOut) {
+        let HandleOp::Run(i) = op;
+        self.ran = Some(i);
+        harness::reset_thread_state();
+        match i {
+            0 => mpmc_sender_clone_from(out),
+            1 => mpmc_receiver_clone_from(out),
+            _ => state_handles_clone_from(out),
+        }
+        let _ = harness::take_alloc_counts();
+        if out.viol.is_empty() {
+            out.o("ok");
+        }
+    }
+    fn fingerprint(&self) -> Vec<u8> {
+        vec![self.ran.map_or(255, |v| v)]
+    }
+    fn finish(self, _out: &mut StepOut) {}
+}
